@@ -1,4 +1,6 @@
-use crate::a2ml::{A2mlTaggedTypeSpec, A2mlTypeSpec, GenericIfData, GenericIfDataTaggedItem};
+use crate::a2ml::{
+    A2mlTaggedTypeSpec, A2mlTypeSpec, GenericIfData, GenericIfDataTaggedItem, MAX_NESTING_DEPTH,
+};
 use crate::parser::{BlockContent, ParseContext, ParserError, ParserState};
 use crate::tokenizer::{A2lToken, A2lTokenType};
 use std::collections::HashMap;
@@ -350,7 +352,7 @@ pub(crate) fn parse_unknown_ifdata_start(
         let tag = parser.get_token_text(token);
         let uid = parser.get_next_id();
         let newcontext = ParseContext::from_token(tag, token);
-        let result = parse_unknown_ifdata(parser, &newcontext, true)?;
+        let result = parse_unknown_ifdata(parser, &newcontext, true, 0)?;
         // hack: temporarily undo the previous token, so that we can get it's end offset
         parser.undo_get_token();
         let end_offset = parser.get_line_offset();
@@ -377,7 +379,7 @@ pub(crate) fn parse_unknown_ifdata_start(
         })
     } else {
         // first token cannot be a tag, so the format is totally unknown
-        parse_unknown_ifdata(parser, context, true)
+        parse_unknown_ifdata(parser, context, true, 0)
     }
 }
 
@@ -391,7 +393,17 @@ pub(crate) fn parse_unknown_ifdata(
     parser: &mut ParserState,
     context: &ParseContext,
     is_block: bool,
+    depth: usize,
 ) -> Result<GenericIfData, ParserError> {
+    // nested blocks are handled recursively; the limit keeps hostile input from overflowing the stack
+    if depth > MAX_NESTING_DEPTH {
+        return Err(ParserError::NestingTooDeep {
+            filename: parser.filenames[context.fileid].to_string(),
+            error_line: parser.last_token_position,
+            block: context.element.clone(),
+            limit: MAX_NESTING_DEPTH,
+        });
+    }
     let mut items: Vec<GenericIfData> = Vec::new();
 
     loop {
@@ -440,7 +452,7 @@ pub(crate) fn parse_unknown_ifdata(
                 // if this is directly within a block level element, then a new taggedstruct will be created to contain the new block element
                 // if it is not, this block belongs to the parent and we only need to break and exit here
                 if is_block {
-                    items.push(parse_unknown_taggedstruct(parser, context)?);
+                    items.push(parse_unknown_taggedstruct(parser, context, depth)?);
                 } else {
                     break;
                 }
@@ -470,6 +482,7 @@ pub(crate) fn parse_unknown_ifdata(
 fn parse_unknown_taggedstruct(
     parser: &mut ParserState,
     context: &ParseContext,
+    depth: usize,
 ) -> Result<GenericIfData, ParserError> {
     let mut tsitems: HashMap<String, Vec<GenericIfDataTaggedItem>> = HashMap::new();
 
@@ -492,7 +505,7 @@ fn parse_unknown_taggedstruct(
         let uid = parser.get_next_id();
         let tag = parser.get_token_text(token);
         let newcontext = ParseContext::from_token(tag, token);
-        let result = parse_unknown_ifdata(parser, &newcontext, is_block)?;
+        let result = parse_unknown_ifdata(parser, &newcontext, is_block, depth + 1)?;
 
         let end_offset = if is_block {
             parser.expect_token(&newcontext, A2lTokenType::End)?;
